@@ -60,10 +60,6 @@ def smf_strict(ctx):
                             samples=[r[:160] + ' => holds' for r in reqs[:2]]),
                 violations=violations)
 
-EXTRA = {
-    'C04': dict(oracles=[goyacc_regen]),
-    'C08': dict(oracles=[smf_strict]),
-}
 
 def matches(finding, violation):
     """does a concrete violation fall under a recorded known finding?"""
@@ -120,3 +116,120 @@ CLASSES = {
 def replay(r):
     print("replay: re-run the recorded request through `check <Cxx> quick` streams; see DESIGN.md section 5")
     return 0
+
+def _simple_conv(req):
+    """`conv syllable xKEY xTEXT` where TEXT is ROOT[/BASS][1] with single accidentals"""
+    w = req.split()
+    if len(w) != 4 or w[1] != 'syllable':
+        return None
+    try:
+        key = bytes.fromhex(w[2][1:]).decode()
+        txt = bytes.fromhex(w[3][1:]).decode()
+    except (ValueError, UnicodeDecodeError):
+        return None
+    if not re.fullmatch(r'[A-G][#b]?(/[A-G][#b]?)?\[1\]', txt) or not re.fullmatch(r'([A-G][#b]?m?)?', key):
+        return None
+    return 'specconv %s %s' % (w[2], w[3])
+
+def _simple_key(req):
+    w = req.split()
+    try:
+        key = bytes.fromhex(w[1][1:]).decode()
+    except (ValueError, UnicodeDecodeError, IndexError):
+        return None
+    return 'specscale ' + w[1] if re.fullmatch(r'[A-G][#b]?m?', key) else None
+
+_MAJOR = [0, 2, 4, 5, 7, 9, 11]
+
+def _degree_meaning(s):
+    """(number, size in semitones) of a degree in crd's notation: b/# prefixes count semitones against the major scale,
+    except that on the perfect numbers (1, 4, 5 and compounds) `b` and `bb` both name the diminished interval"""
+    m = re.fullmatch(r'(b*|#*)(\d+)', s)
+    if not m or int(m.group(2)) == 0:
+        return None
+    pre, n = m.group(1), int(m.group(2))
+    step, octv = (n - 1) % 7, (n - 1) // 7
+    perfect = step in (0, 3, 4)
+    if pre.startswith('b'):
+        k = len(pre)
+        alt = -(max(1, k - 1) if perfect else k)
+    else:
+        alt = len(pre)
+    return (n, _MAJOR[step] + 12 * octv + alt)
+
+def _conv_meaning(reply):
+    """a `conv` reply for one chord as the specification states it: number and size of root (and bass)"""
+    w = reply.split()
+    # ok 1 + + xDEG xNAME (~ | + xBASE) 1 x31 ~ ~ ~ ~ ~
+    if len(w) < 7 or w[0] != 'ok' or w[1] != '1' or w[2] != '+' or w[3] != '+':
+        return reply
+    try:
+        deg = _degree_meaning(bytes.fromhex(w[4][1:]).decode())
+        if w[6] == '~':
+            return 'ok %d %d' % deg
+        base = _degree_meaning(bytes.fromhex(w[7][1:]).decode())
+        return 'ok %d %d %d %d' % (deg + base)
+    except Exception:
+        return reply
+
+SPEC_ORACLES = {
+    # property: [(stream, request prefix, spec request builder)]
+    'C13': [('scale', 'keptscale ', _simple_key)],
+    'C17': [('scale', 'keptscale ', _simple_key)],
+    'C15': [('note', 'semitone ', lambda r: 'specsize ' + r.split(' ', 1)[1])],
+    'C03': [('conv', 'conv syllable ', _simple_conv)],
+    'C05': [('conv', 'conv syllable ', _simple_conv)],
+}
+
+def spec_oracle(pid):
+    """the replies of the REAL code compared with a specification that reads none of crd's tables (Crd/Spec/Oracle.lean,
+    Crd/Spec/Theory.lean): turns a table entry changed consistently in the code (which the regenerated model follows)
+    into a concrete failing input"""
+    def run(ctx):
+        import crdcheck
+        tie = os.path.join(ctx['scratch'], 'tie')
+        reqs, keys, reals = [], [], []
+        for stream, prefix, build in SPEC_ORACLES[pid]:
+            rq, rl = os.path.join(tie, stream + '.req'), os.path.join(tie, stream + '.real')
+            if not (os.path.exists(rq) and os.path.exists(rl)):
+                continue
+            for a, b in zip(open(rq, encoding='utf-8'), open(rl, encoding='utf-8')):
+                a, b = a.rstrip('\n'), b.rstrip('\n')
+                if not a.startswith(prefix):
+                    continue
+                s = build(a)
+                if s is None:
+                    continue
+                reqs.append(s); keys.append(a); reals.append(b)
+        violations = []
+        agree = 0
+        if reqs:
+            m = crdcheck.run([ctx['driver']], stdin=('\n'.join(reqs) + '\n').encode(), timeout=3600)
+            out = m.stdout.decode().split('\n')
+            for k, r, real, spec in zip(keys, reqs, reals, out):
+                spec = spec.strip()
+                # the specification answers for every well-formed request; crd may support less (fewer keys) but whatever
+                # it does answer must be what theory says.  For interval sizes both directions count.
+                if pid in ('C03', 'C05'):
+                    real = _conv_meaning(real)
+                if real.startswith('ok') or (pid == 'C15' and spec.startswith('ok')):
+                    if real != spec:
+                        violations.append(dict(what='real crd disagrees with the specification (which reads none of crd\'s tables)',
+                                               input=k[:2000], stream='spec-oracle', observed=dict(real=real[:600], specification=spec[:600])))
+                    else:
+                        agree += 1
+        return dict(stream=dict(name='spec-oracle', cases=len(reqs), distinct=len(set(reqs)), diffs=[],
+                                stats={'real-replies-compared-with-specification': len(reqs), 'agree': agree},
+                                samples=['%s  =>  %s' % (k[:100], r[:60]) for k, r in list(zip(keys, reals))[:2]]),
+                    violations=violations)
+    return run
+
+EXTRA = {
+    'C03': dict(oracles=[spec_oracle('C03')]),
+    'C04': dict(oracles=[goyacc_regen]),
+    'C05': dict(oracles=[spec_oracle('C05')]),
+    'C08': dict(oracles=[smf_strict]),
+    'C13': dict(oracles=[spec_oracle('C13')]),
+    'C15': dict(oracles=[spec_oracle('C15')]),
+    'C17': dict(oracles=[spec_oracle('C17')]),
+}
